@@ -250,3 +250,19 @@ Example dest_backslash_star : link_destination [97; 92; 42; 98] = [97; 92; 92; 4
 Proof. vm_compute. reflexivity. Qed.
 Example dest_angle : link_destination [97; 62; 32; 98] = [60; 97; 92; 62; 32; 98; 62].       (* "a> b" -> <a\> b> *)
 Proof. vm_compute. reflexivity. Qed.
+
+(* ---- the escapes the renderer writes are exactly undone by the parser's escape removal ---- *)
+Theorem strip_escape_backslashes s : strip_backslash (escape_backslashes s) = s.
+Proof.
+  rewrite esc_none. induction s as [|c r IH]; [reflexivity|].
+  cbn [esc]. destruct (c =? 92) eqn:E92.
+  - apply N.eqb_eq in E92. subst c. destruct (next_punct r) eqn:Enp.
+    + cbn [app strip_backslash]. change (92 =? 92) with true. change (is_ascii_punct 92) with true. cbv iota.
+      now rewrite IH.
+    + destruct r as [|d0 r1]; [discriminate|]. cbn [next_punct] in Enp.
+      assert (Ed0 : d0 =? 92 = false).
+      { destruct (N.eqb_spec d0 92) as [->|_]; [|reflexivity]. vm_compute in Enp. discriminate. }
+      cbn [esc] in IH |- *. rewrite Ed0 in IH |- *. cbn [app strip_backslash] in IH |- *.
+      change (92 =? 92) with true. cbv iota. rewrite Enp. rewrite Ed0 in IH |- *. now rewrite IH.
+  - cbn [strip_backslash]. rewrite E92. now rewrite IH.
+Qed.
